@@ -135,6 +135,14 @@ func fnStorage(seed uint64, n int) {
 				file = append(file, '\n')
 			}
 		}
+		if i%25 == 13 || i%25 == 3 {
+			// one event line longer than one (or two) 64 KiB blocks at the very end: the repair has to reassemble it across blocks
+			n := 66000 + r.n(6000)
+			if i%25 == 3 {
+				n = 133000 + r.n(70000)
+			}
+			evs = append(evs, ergo.VerifNewEvent("body", tsAt(2), ergo.BodyUpdateEvent{ID: "ZZZZZZ", Body: strings.Repeat("0123456789abcdef", n/16), TS: ergo.VerifFormatTime(tsAt(2))}))
+		}
 		for _, e := range evs {
 			b, _ := json.Marshal(e)
 			switch c := r.n(100); {
@@ -149,7 +157,11 @@ func fnStorage(seed uint64, n int) {
 			file = append(file, b...)
 			file = append(file, '\n')
 		}
-		switch c := r.n(100); {
+		tailMode := r.n(100)
+		if i%25 == 13 || i%25 == 3 {
+			tailMode = []int{35, 35, 35, 99, 10}[r.n(5)] // mostly: only the final newline is missing
+		}
+		switch c := tailMode; {
 		case c < 30 && len(file) > 0: // torn at a random byte
 			file = file[:r.n(len(file))]
 		case c < 40 && len(file) > 0: // final newline missing
@@ -333,7 +345,7 @@ func fnPath(seed uint64, n int) {
 	root, _ = filepath.EvalSymlinks(root)
 	defer os.RemoveAll(root)
 	repo := filepath.Join(root, "proj")
-	for _, d := range []string{"proj/.ergo", "proj/d", "proj/sub/deep", "proj/nested/.ergo", "proj/nested/x", "proj/a b", "proj/filergo", "other"} {
+	for _, d := range []string{"proj/.ergo", "proj/d", "proj/sub/deep", "proj/nested/.ergo", "proj/nested/x", "proj/sub/inner/.ergo", "proj/sub/inner/y", "proj/a b", "proj/filergo", "other"} {
 		os.MkdirAll(filepath.Join(root, d), 0755)
 	}
 	for _, f := range []string{"proj/a", "proj/d/f", "proj/.ergox", "proj/..x", "proj/x..", "proj/é", "proj/...", "proj/ ", "proj/filergo/.ergo", "proj/.ergo/plans.jsonl", "other/secret"} {
@@ -370,7 +382,10 @@ func fnPath(seed uint64, n int) {
 		// discovery walk from a start spelled relative to a cwd inside the tree
 		cwd := pick(r, []string{repo, filepath.Join(repo, "sub"), filepath.Join(repo, "sub/deep"), filepath.Join(repo, "nested/x"), root, filepath.Join(repo, ".ergo"), filepath.Join(repo, "filergo")})
 		start := pick(r, []string{".", "..", "../..", "sub", "sub/deep", ".ergo", "./.ergo/", cwd, cwd + "/", filepath.Join(repo, "sub/deep"), filepath.Join(repo, ".ergo"),
-			filepath.Join(repo, "nested/x"), "nested", "nested/.ergo", "nosuch", filepath.Join(root, "other"), "filergo", p})
+			filepath.Join(repo, "nested/x"), "nested", "nested/.ergo", "nosuch", filepath.Join(root, "other"), "filergo", p,
+			// absolute spellings that are not clean: the walk has to start from the directory they *name*
+			repo + "/sub/inner/..", repo + "/sub/inner/../", repo + "/sub/inner/y/../..", repo + "/sub/inner/./..", repo + "//sub//inner/../deep", cwd + "/..", cwd + "/../.", cwd + "/./",
+			repo + "/nested/x/../..", repo + "/sub/inner/y/..", "inner/..", "sub/inner/..", "sub/inner/y/../.."})
 		os.Chdir(cwd)
 		rr, rerr := ergo.VerifResolveErgoDir(start)
 		if rerr != nil {
